@@ -1,7 +1,8 @@
-/- C12 — primitive radial integrals: dispatch and indexing facts decided on the regenerated tables.
-   (closed-form-case theorems against the recurrence: see below / work in progress) -/
+/- C12 — primitive radial integrals: dispatch and indexing facts decided on the regenerated tables; the 63 closed-form
+   cases against the recurrence are in Props/C12Cases (imported here, so they are rebuilt and audited with this module). -/
 import Ecpint.Gen.RadialCases
 import Ecpint.Gen.QClasses
+import Ecpint.Props.C12Cases
 namespace Ecpint.C12
 open Ecpint.Gen
 set_option maxRecDepth 100000
